@@ -13,12 +13,36 @@ def GG(nets="net1 net2", lazy=True, **kw):
 def plan(tier):
     q = tier == "quick"
     p = []
+    v1 = [("image1_vm1", "install"), ("image1_vm1", "customize"), ("image1_vm1", "linux_virtuser")]
+    v2 = [("image1_vm2", "install"), ("image1_vm2", "customize"), ("image1_vm2", "windows_virtuser")]
     for lazy in (True, False):
         p.append((S.G1(lazy=lazy), 1 if q else 2, 3))
         p.append((GG(lazy=lazy), 1 if q else 2, 3))
     p.append((S.G2(), 0 if q else 1, 3))
     p.append((S.G2(lazy=False), 0 if q else 1, 3))
+    # histories: setup left by earlier runs in the shared pool (every downward-closed subset of the two vms' setup chains)
+    v1 = [("image1_vm1", "install"), ("image1_vm1", "customize"), ("image1_vm1", "linux_virtuser")]
+    v2 = [("image1_vm2", "install"), ("image1_vm2", "customize"), ("image1_vm2", "windows_virtuser")]
+    for i in range(0, 4):
+        for j in range(0, 4):
+            if i == 0 and j == 0:
+                continue
+            if q and (i, j) not in ((3, 3), (2, 2), (3, 0), (0, 3), (1, 1)):
+                continue
+            for lazy in (True, False):
+                p.append((GG(lazy=lazy, shared=v1[:i] + v2[:j]).variant(f"/shared=vm1[:{i}]+vm2[:{j}]"), 1 if q else 2, 0.5))
+            p.append((S.G1(shared=v1[:i] + v2[:j]).variant(f"/shared=vm1[:{i}]+vm2[:{j}]"), 0 if q else 1, 0.5))
     p.append((S.G1("net1 net2 net3"), 0 if q else 1, 2))
+    # remote workers of one cluster swarm, and of two clusters
+    p.append((GG("cluster2.net6 cluster2.net7"), 1 if q else 2, 2))
+    p.append((GG("cluster2.net6 cluster2.net7", shared=v1 + v2).variant("/shared=setup"), 1 if q else 2, 1))
+    p.append((S.G1("cluster1.net6 cluster2.net6"), 0 if q else 1, 1))
+    # an unrelated quick test keeps one worker busy, which then meets the producer as a bystander while the dependant runs elsewhere
+    v1all = v1 + [("image1_vm1", "connect"), ("vm1", "on_customize")]
+    three = "leaves..tutorial1,leaves..tutorial_gui.client_noop,leaves..tutorial_get.explicit_noop"
+    for nets in ("net1 net2", "cluster2.net6 cluster2.net7"):
+        p.append((Scenario("G3t:" + nets.replace(" ", "+") + "/lazy", three, nets, lazy=True, D=(1.0, 5.0), shared=v1all + v2).variant("/shared=setup"), 1 if q else 2, 1))
+        p.append((Scenario("G3t:" + nets.replace(" ", "+") + "/lazy", three, nets, lazy=True, D=(1.0, 5.0)), 0 if q else 1, 1))
     p.append((S.G1("net1"), 1 if q else 2, 1))
     # settings
     p.append((S.G1(params={"pool_filter": "copy"}).variant("/pool_filter=copy"), 0 if q else 1, 1))
